@@ -95,6 +95,9 @@ func attrValue(start xml.StartElement, local string) string {
 	return ""
 }
 
+// maxRepeatedSpaces bounds the run of blanks one <text:s text:c="…"/> stands for.
+const maxRepeatedSpaces = 1 << 12
+
 // decodeInlineContent reads the mixed content of a paragraph-like element
 // (text:p, text:h, text:span, text:a) up to its end tag. It returns the
 // character data that is a direct child (direct), the complete text in
@@ -131,6 +134,11 @@ func decodeInlineContent(d *xml.Decoder) (direct, full string, spans []spanXML, 
 				n := 1
 				if c, err := strconv.Atoi(attrValue(t, "c")); err == nil && c > 0 {
 					n = c
+				}
+				// text:c is a count from the file: it must not size an
+				// allocation beyond what a paragraph can plausibly hold
+				if n > maxRepeatedSpaces {
+					n = maxRepeatedSpaces
 				}
 				fb.WriteString(strings.Repeat(" ", n))
 			case "tab":
